@@ -52,6 +52,20 @@ CLAIMED = {
              "under upscaling, width striping. One recorded finding (stride-3 consumers) is reported as KNOWN-FINDING.",
         technique="dynamic symbolic execution of the real Python functions over z3 proxies (symx), bounded loops; reference receptive-field oracle; counterexample replay",
         design="DESIGN.md §3 C10"),
+    "C09": dict(
+        text="Bounded solver verdict on the real scale-quantisation code in IEEE-754 theory (no reals): quantise_scale over ALL positive "
+             "normal float64 and float32 inputs in one symbolic query family (multiplier == TFLite reference multiplier, in [2^30,2^31], "
+             "relative error <= 2^-31, shift == 31-exponent in [0,63], out-of-range degrades to a zero multiplier); the int16 reduction as "
+             "pure integer arithmetic over every full pair; the average-pool pair for every window size (quick: 1..1024 + boundaries + "
+             "sample, thorough: all 1..65536) decided for EVERY int8/uint8/int16 accumulator by an integer query; add/sub/mul derivations "
+             "equal to the same derivation evaluated in double from the same (float32 or double) inputs, compositionally over the proven "
+             "quantise_scale summary; operand selection.",
+        note="Trusted: z3 (FP/BV/LIA), symx float proxies with NumPy-2 (NEP 50) promotion, the TFLite QuantizeMultiplier definition "
+             "restated as an integer formula. Assumptions: positive normal inputs in the main harness (other classes enumerated), negative "
+             "exact ties of the pooling divisor may round either way, reduced form for shift >= 16. Outside: MUL reference precision, "
+             "log2 paths for int16 sigmoid/tanh. One recorded finding (int16 windows > 32768) is reported as KNOWN-FINDING.",
+        technique="dynamic symbolic execution of the real Python functions over z3 FP/BV/Int proxies (symx); compositional summaries; counterexample replay",
+        design="DESIGN.md §3 C09"),
 }
 
 NOT_APPLICABLE = {
